@@ -1,0 +1,29 @@
+// Copyright 2018 Prometheus Team
+// Licensed under the Apache License, Version 2.0 (the "License");
+// you may not use this file except in compliance with the License.
+// You may obtain a copy of the License at
+//
+// http://www.apache.org/licenses/LICENSE-2.0
+//
+// Unless required by applicable law or agreed to in writing, software
+// distributed under the License is distributed on an "AS IS" BASIS,
+// WITHOUT WARRANTIES OR CONDITIONS OF ANY KIND, either express or implied.
+// See the License for the specific language governing permissions and
+// limitations under the License.
+
+//go:build verif
+
+package cluster
+
+// Accessors for the verification harness: they feed bytes to the receive path of
+// the memberlist delegate exactly as memberlist would. Only compiled with the
+// "verif" build tag; there are no call sites in the package.
+
+// VerifNotifyMsg delivers a user-level gossip message.
+func (p *Peer) VerifNotifyMsg(b []byte) { p.delegate.NotifyMsg(b) }
+
+// VerifMergeRemoteState delivers a full-state (push/pull) message.
+func (p *Peer) VerifMergeRemoteState(b []byte) { p.delegate.MergeRemoteState(b, false) }
+
+// VerifLocalState returns the full-state message this peer would send.
+func (p *Peer) VerifLocalState() []byte { return p.delegate.LocalState(false) }
